@@ -26,10 +26,34 @@ def run(check, pool, Task):
     for lv, el, ms, wh in maps:
         tasks.append(Task(f'kernel:_geometry_map_nested{lv} {wh} elements={el} missing={ms}', c14.q_map_nested, (lv, el, ms), {'which': wh, 'seed': check.seed},
                           timeout=cap, meta={'kind': 'map'}))
+    # float32 coordinate buffers: float32-typed sums, differences and products are rounded to 24 bits (values.F32)
+    for rs, solve in (([3], True), ([4], False), ([3, 3], False)) + ((([4], True), ([6], False)) if thorough else ()):
+        tasks.append(Task(f"kernel:compute_area on a float32 buffer, rings={rs} ({'exact, monolithic' if solve else 'float32-typed operations'})", c14.q_area_f32, (rs,),
+                          {'seed': check.seed, 'solve': solve, 'timeout': 300}, timeout=cap, meta={'kind': 'area32', 'rs': rs, 'noretry': True}))
+    tasks.append(Task('kernel:compute_line_length on a float32 buffer, one axis-parallel segment (extent a power of two after rounding)', c14.q_length_f32, (),
+                      {'seed': check.seed, 'timeout': 300}, timeout=cap, meta={'kind': 'length32', 'noretry': True}))
+    check.bounds['float32'] = ('integer coordinates |c| <= 2^24, float32 (op) float32 rounded to float32 (round-half-even, modelled exactly for integers); area: '
+                               'triangle (quadrilateral thorough) decided by the solver, other structures must show no float32-typed operation; length: one '
+                               'axis-parallel segment whose rounded extent is a power of two')
     res = pool(tasks)
     for t in tasks:
         r = res.get(t.name, {'status': 'error', 'detail': 'no result'})
         m = t.meta
+        if m['kind'] in ('area32', 'length32'):
+            if r['status'] == 'sat':
+                try:
+                    bad, wit = c14.replay_area_f32(m['rs'], r['model']) if m['kind'] == 'area32' else c14.replay_length_f32(r['model'])
+                except Exception as e:  # noqa: BLE001
+                    bad, wit = False, {'exception': repr(e)}
+                if bad:
+                    v = check.violation(f"C14:float32:{'area' if m['kind'] == 'area32' else 'length'}",
+                                        f"float32 {wit['kind']} array: measure {wit['got']} but the exact value is {wit['expected']} ({str(wit.get('rings') or wit.get('coordinates'))[:200]})", wit)
+                    check.record(t.name, dict(r, status='known-finding' if v == 'known' else 'violated'), 'kernel', m)
+                else:
+                    check.record(t.name, dict(r, status='inconclusive', detail=f'float32 counterexample did not reproduce: {str(wit)[:300]}'), 'kernel', m)
+            else:
+                check.record(t.name, dict(r, status='inconclusive' if r['status'] == 'unknown' else r['status']), 'kernel', m)
+            continue
         if r['status'] == 'sat' and m['kind'] in ('area', 'length'):
             try:
                 bad, wit = (c14.replay_area(m['rs'], r['model']) if m['kind'] == 'area' else c14.replay_length(m['ps'], r['model']))
